@@ -300,6 +300,7 @@ Definition cplx_call (ct : ctable) (c : nat) (st : state)
       if negb (Nat.eqb (length es) (length ss)) then (st, CErr eObjectInit None) else
       let names := map fst es in
       let n := length (make_strand_table_list sPlus names) in
+      if Nat.eqb n 0 then (st, CErr eObjectInit None) else          (* 'no strands' *)
       match rot_loop n 0 (cs_canon (cget st c)) names ss [] with
       | Err k => (st, CErr k None)
       | Ok (ex, cdict) =>
